@@ -29,7 +29,11 @@ interpret(argv, exists) answers, for one command line,
                        left open (counts and files are still determined)
 
 `exists` is a callable path -> bool supplied by the driver, so the model stays
-a pure function.
+a pure function: the meaning of a command line depends on nothing but its
+tokens and the files it names - not on the format of the input file (no
+keyword is derived from it; in particular `repair` is never passed, the
+library default applies to CSV and parquet alike) and not on commands that
+ran earlier in the same process.
 """
 
 import os
@@ -227,6 +231,8 @@ def interpret(argv, exists):
             #  unless you use --output-fields."  Library: [] = all original
             #  columns, None = none (and then the row number is included
             #  automatically), list = those columns.
+            #  "--output-fields FIELD1 FIELD2 ...": the names as listed, in
+            #  the order listed (the library writes them in that order).
             if 'output_fields' in opts:
                 kw['output_fields'] = list(opts['output_fields'][0])
             elif 'no_output_fields' in opts:
